@@ -387,12 +387,18 @@ def _judge_map_product(model, mem):
         "x": lambda i: {"x": Poly.sym(f"a{i}"), 1: Poly.sym(f"c{i}")},
         "xy": lambda i: {"x": Poly.sym(f"a{i}"), "y": Poly.sym(f"b{i}")},
         "y": lambda i: {"y": Poly.sym(f"b{i}")},
+        # a factor with variables whose constant term is the number 0
+        # (2*(x + 1 - 1)), and the constant factor 0
+        "x0": lambda i: {"x": Poly.sym(f"a{i}"), 1: 0},
+        "k0": lambda i: {1: 0},
     }
     wit = []
     n_cases = 0
     for n in range(1, 5):
         for combo in itertools.product(sorted(shapes), repeat=n):
-            if n == 4 and sum(1 for c in combo if c != "k") > 2:
+            if n == 4 and sum(1 for c in combo if c not in ("k", "k0")) > 2:
+                continue
+            if n >= 3 and sum(1 for c in combo if c in ("x0", "k0")) > 1:
                 continue
             n_cases += 1
             tables = [shapes[c](i) for i, c in enumerate(combo)]
@@ -406,10 +412,20 @@ def _judge_map_product(model, mem):
                     raise AnalysisError("map_product: rec of something that is "
                                         "not a factor")
                 return dict(_t[int(w[5:])])
+            def generic(it_, n_, v):
+                # coefficients are generic numbers: two that are not the same
+                # polynomial are different numbers
+                if v[0] == "compare" and isinstance(v[1], (ast.Eq, ast.NotEq)) \
+                        and all(isinstance(x, (Poly, int)) and
+                                not isinstance(x, bool) for x in v[2:]):
+                    return isinstance(v[1], ast.NotEq)
+                raise AnalysisError("map_product: test on a symbolic "
+                                    f"coefficient: {ast.unparse(n_)}")
             it = Interp(calls={"self.rec": rec}, resolve=resolve, globals_=glob,
                         attrs=lambda it_, n_, b, at: Opaque(ast.unparse(n_)),
-                        max_steps=40000)
-            with_vars = [i for i, c in enumerate(combo) if c != "k"]
+                        decide=generic, max_steps=40000)
+            with_vars = [i for i, c in enumerate(combo)
+                         if c not in ("k", "k0")]
             label = "factors with tables " + ", ".join(
                 "{" + ", ".join(f"{k_}: ." for k_ in t) + "}" for t in tables)
             try:
@@ -424,6 +440,8 @@ def _judge_map_product(model, mem):
                 wit.append(f"{label}: does not terminate")
                 continue
             if len(with_vars) > 1:
+                if "k0" in combo:
+                    continue    # 0 * x * y: zero, refused or not
                 if got != "raises":
                     wit.append(f"{label}: two factors carry variables (the "
                                "product is not affine) and the product is not "
@@ -440,9 +458,11 @@ def _judge_map_product(model, mem):
                     scale = scale * t[1]
             base = tables[with_vars[0]] if with_vars else {1: Poly.const(1)}
             want = {k_: scale * v for k_, v in base.items()}
-            if not isinstance(got, dict) or set(got) != set(want) or any(
-                    not isinstance(got[k_], (Poly, int)) or
-                    Poly.lift(got[k_]) != want[k_] for k_ in want):
+            # (an entry whose coefficient is zero may be there or not)
+            if not isinstance(got, dict) or any(
+                    not isinstance(got.get(k_, 0), (Poly, int)) or
+                    Poly.lift(got.get(k_, 0)) != Poly.lift(want.get(k_, 0))
+                    for k_ in set(want) | set(got)):
                 wit.append(f"{label}: result {got!r}, expected {want!r}")
     if n_cases < 50:
         raise AnalysisError("map_product: too few cases")
